@@ -130,3 +130,22 @@ VARIANTS += [
     V("silent-games-full-slice", "moptipyapps/ttp/game_encoding.py",
       "    for game in x:", "    for game in x[0:len(x)]:", "silent"),
 ]
+
+GPL = "moptipyapps/ttp/game_plan.py"
+VARIANTS += [
+    V("plan-dtype-min-scalar-type", GPL,
+      "            cls, (n_days, n), instance.game_plan_dtype)",
+      "            cls, (n_days, n), np.min_scalar_type(-n))", "fire",
+      "D15.5", "seed C15-plan-dtype-min-scalar-type"),
+    V("silent-plan-dtype-hoisted", GPL,
+      "        obj: Final[GamePlan] = super().__new__(\n"
+      "            cls, (n_days, n), instance.game_plan_dtype)",
+      "        cell_type = instance.game_plan_dtype\n"
+      "        obj: Final[GamePlan] = super().__new__(\n"
+      "            cls, (n_days, n), cell_type)", "silent", "",
+      "hoisted type"),
+    V("instance-plan-dtype-unsigned-range", "moptipyapps/ttp/instance.py",
+      "        obj.game_plan_dtype = int_range_to_dtype(-n, n)",
+      "        obj.game_plan_dtype = int_range_to_dtype(0, n)", "fire",
+      "D15.5"),
+]
